@@ -19,8 +19,9 @@ func init() {
 		Title: "Date range filter contains exactly the inclusive interval",
 		Run:   runC15,
 		Explanation: "C15.table: FilterFromTo composed with the Contains method of whichever concrete filter type it returns is evaluated by predicate abstraction over (from nil?, to nil?, order(from,to), order(from,probe), order(to,probe)) restricted to consistent orders — 20 abstract cases covering every triple of dates; Equal/Before/After are replaced by their specification (discharged by C07.order, which this check re-runs). Oracle: error wrapping ErrInvalidFromOrTo iff both given and from > to; otherwise contains ⇔ (from absent ∨ from ≤ probe) ∧ (to absent ∨ probe ≤ to). " +
-			"C15.new: date.New = FromTime(time.Date(y,m,d,0,0,0,0,time.UTC)) and FromTime's decision table, so the bounds and probes are the days the caller named. C15.copy: every concrete filter type has only Date value fields (no pointer, slice or map), initialised from loads *from / *to, so later changes of the caller's variables cannot reach the filter. C15.copy frozen: every store into a filter struct initialises a fresh allocation; no method or function writes a filter through a receiver, parameter or loaded pointer.",
-		NotDecided:  []string{"nothing beyond C07's assumptions (lexicographic field order = chronological order)"},
+			"C15.new: date.New = FromTime(time.Date(y,m,d,0,0,0,0,time.UTC)) and FromTime's decision table, so the bounds and probes are the days the caller named. C15.copy: every concrete filter type has only Date value fields (no pointer, slice or map), initialised from loads *from / *to, so later changes of the caller's variables cannot reach the filter. C15.copy frozen: every store into a filter struct initialises a fresh allocation; no method or function writes a filter through a receiver, parameter or loaded pointer." +
+			" Added after the second rule audit: C15.wrap looks into Unwrap bodies: every return is the error-typed field of the receiver.",
+		NotDecided:  []string{"nothing beyond C07's assumptions (lexicographic field order = chronological order)", "'keeps the bounds it was built with' is decided structurally (nothing writes a filter, or through the address of one of its fields, after construction), not by evaluating a second Contains call"},
 		Assumptions: []string{"C07.order (re-checked in this run)"},
 		Technique:   "exhaustive predicate abstraction over consistent date orderings with interface dispatch + type-structure check",
 	})
